@@ -125,6 +125,7 @@ def _add_lmf(
     infos = lmf.scan_lexicons(source)
     if not infos:
         progress.flash(f'{source}: No lexicons found')
+        lmf.load(source, progress_handler)  # still reject an invalid file
         return
 
     skipmap = _precheck(infos, progress)
